@@ -226,3 +226,26 @@ impl Distinct {
         self.0.len()
     }
 }
+
+/// Calls `f` with every index vector in {0..n}^len (lexicographic order).
+pub fn product(n: usize, len: usize, mut f: impl FnMut(&[usize])) {
+    let mut idx = vec![0usize; len];
+    if n == 0 && len > 0 {
+        return;
+    }
+    loop {
+        f(&idx);
+        let mut p = len;
+        loop {
+            if p == 0 {
+                return;
+            }
+            p -= 1;
+            idx[p] += 1;
+            if idx[p] < n {
+                break;
+            }
+            idx[p] = 0;
+        }
+    }
+}
